@@ -165,6 +165,9 @@ class GlomError(Exception):
         if set(self._tb_lines[0]) <= {' ', '^', '~'}:
             self._tb_lines = self._tb_lines[1:]
         self._scope = scope
+        # a copy of an error that was already rendered (e.g. str() on an inner
+        # glom() error that is then re-raised) must be rendered anew
+        self._finalized_str = None
 
     def __str__(self):
         if getattr(self, '_finalized_str', None):
